@@ -170,6 +170,8 @@ type Sorts struct {
 	typeIDs map[string]int
 	idTypes []types.Type
 	ifaceImpl map[Sort]map[int]types.Type // iface sort -> type ids used with inj/proj
+	rangeFn   func(x Term, t types.Type, depth int) Term
+	pkg       string // package of the function under verification
 }
 
 func newSorts(w *World) *Sorts {
@@ -219,7 +221,7 @@ func (ss *Sorts) isOpaque(n *types.Named) bool {
 		return false
 	}
 	k := n.Obj().Pkg().Path() + "." + n.Obj().Name()
-	return ss.w.opaque[k]
+	return ss.w.opaque[k+"@"+ss.pkg] || ss.w.opaque[k+"@"]
 }
 
 // sortOf maps a Go type to an SMT sort, declaring it if necessary.
@@ -471,9 +473,23 @@ func (ss *Sorts) ensureInj(iface Sort, id int, ct types.Type, cs Sort) {
 	}
 	m[id] = ct
 	name := Sort(fmt.Sprintf("inj$%s$%d", iface, id))
+	// injection is specified on well-typed payloads only (an out-of-range
+	// mathematical integer is not a Go value)
+	guard := "true"
+	if ss.rangeFn != nil {
+		guard = ss.rangeFn(Term{"x", cs, ct}, ct, 1).S
+	}
 	decl := fmt.Sprintf("(declare-fun inj.%s.%d (%s) %s)\n(declare-fun proj.%s.%d (%s) %s)\n", iface, id, cs, iface, iface, id, iface, cs) +
-		fmt.Sprintf("(assert (forall ((x %s)) (! (and (= (tag.%s (inj.%s.%d x)) %d) (= (proj.%s.%d (inj.%s.%d x)) x)) :pattern ((inj.%s.%d x)))))\n", cs, iface, iface, id, id, iface, id, iface, id, iface, id) +
+		fmt.Sprintf("(assert (forall ((x %s)) (! (=> %s (and (= (tag.%s (inj.%s.%d x)) %d) (= (proj.%s.%d (inj.%s.%d x)) x))) :pattern ((inj.%s.%d x)))))\n", cs, guard, iface, iface, id, id, iface, id, iface, id, iface, id) +
 		fmt.Sprintf("(assert (forall ((i %s)) (! (=> (= (tag.%s i) %d) (= (inj.%s.%d (proj.%s.%d i)) i)) :pattern ((proj.%s.%d i)))))", iface, iface, id, iface, id, iface, id, iface, id)
+	// type invariant of the payload: a value held in an interface is a
+	// well-typed Go value (integers within the range of their type)
+	if ss.rangeFn != nil {
+		p := Term{fmt.Sprintf("(proj.%s.%d i)", iface, id), cs, ct}
+		if f := ss.rangeFn(p, ct, 1); f.S != "true" {
+			decl += fmt.Sprintf("\n(assert (forall ((i %s)) (! (=> (= (tag.%s i) %d) %s) :pattern ((proj.%s.%d i)))))", iface, iface, id, f.S, iface, id)
+		}
+	}
 	ss.declare(&sortInfo{Name: name, Kind: "inj", Decl: decl})
 }
 
